@@ -12,9 +12,11 @@ import (
 	"strings"
 
 	"github.com/avfs/avfs"
+	"github.com/avfs/avfs/idm/memidm"
 	"github.com/avfs/avfs/vfs/basepathfs"
 	"github.com/avfs/avfs/vfs/memfs"
 	"github.com/avfs/avfs/vfs/orefafs"
+	"github.com/avfs/avfs/vfs/rofs"
 
 	"verif/lib/bfs"
 	"verif/lib/fsx"
@@ -36,15 +38,22 @@ type sys struct {
 
 	// variant of the system ("" for the main ones): "basepath:<class>" - the
 	// wrapper is built with spelling (the base's cwd being spellCwd) -, or
-	// "out-links" - B holds the links of outLinks.
+	// "out-links" - B holds the links of outLinks -, "ro" - wrapper and reference
+	// stand on a read-only view (rofs) of their file system -, "user" - the calls
+	// are made by a non-administrator user in the world of populateUser.
 	variant  string
 	spelling string
 	spellCwd string
 	outLinks bool
+	roBase   bool
+	user     bool
 
 	base hooked
 	ref  hooked
 	wr   *basepathfs.BasePathFS
+	// refv receives the calls of the reference's side (ref itself, or the
+	// read-only view of it); ref stays the handle for dumps and the cwd.
+	refv avfs.VFS
 
 	depth   int // state-changing steps since Reset = length of the history replayed
 	lastKey string
@@ -61,7 +70,7 @@ type sys struct {
 }
 
 // newSys builds the system of a name: "<fs>", "<fs>@<class of
-// basePathSpellings>", "<fs>+out-links".
+// basePathSpellings>", "<fs>+out-links", "<fs>+ro", "<fs>+user".
 func newSys(name string, ops []opT, nAt []int) *sys {
 	s := &sys{fsName: name, ops: ops, nAt: nAt, spelling: basePath}
 
@@ -82,11 +91,18 @@ func newSys(name string, ops []opT, nAt []int) *sys {
 	}
 
 	if fsn, v, ok := strings.Cut(name, "+"); ok {
-		if v != "out-links" {
+		s.fsName, s.variant = fsn, v
+
+		switch v {
+		case "out-links":
+			s.outLinks = true
+		case "ro":
+			s.roBase = true
+		case "user":
+			s.user = true
+		default:
 			panic("c10: unknown variant " + v)
 		}
-
-		s.fsName, s.variant, s.outLinks = fsn, v, true
 	}
 
 	return s
@@ -100,7 +116,7 @@ func newSys(name string, ops []opT, nAt []int) *sys {
 func (s *sys) NumOps() int {
 	l := s.depth + 1
 
-	if l == 1 && s.variant != "" {
+	if l == 1 && s.variant != "" && !s.roBase {
 		return compactOps(s.ops)
 	}
 
@@ -108,7 +124,7 @@ func (s *sys) NumOps() int {
 		// (a cwd with an unclean spelling - MemFile.Chdir keeps "/a/b/.." as given
 		// to Open - is one more state of the main systems, not of these)
 		c, r := s.base.CurDir(), s.ref.CurDir()
-		if s.outLinks || c == basePath || c != path.Clean(c) || r != path.Clean(r) {
+		if s.outLinks || s.roBase || s.user || c == basePath || c != path.Clean(c) || r != path.Clean(r) {
 			return 0
 		}
 	}
@@ -124,10 +140,10 @@ func (s *sys) OpString(i int) string { return s.ops[i].String() }
 func (s *sys) Close()                {}
 func (s *sys) Key() string           { return s.lastKey }
 
-func newFS(name string, dirs []avfs.DirInfo) hooked {
+func newFS(name string, dirs []avfs.DirInfo, idm avfs.IdentityMgr) hooked {
 	switch name {
 	case "MemFS":
-		return memfs.NewWithOptions(&memfs.Options{OSType: avfs.OsLinux, SystemDirs: dirs})
+		return memfs.NewWithOptions(&memfs.Options{OSType: avfs.OsLinux, SystemDirs: dirs, Idm: idm})
 	case "OrefaFS":
 		return orefafs.NewWithOptions(&orefafs.Options{OSType: avfs.OsLinux, SystemDirs: dirs})
 	}
@@ -162,6 +178,47 @@ func populate(v hooked, root string, links [][2]string) error {
 	return nil
 }
 
+// populateUser adds, as the administrator, the world of the variant user below
+// root and creates the user (see userStrings).
+func populateUser(v hooked, root string) error {
+	idm := v.Idm()
+
+	if _, err := idm.AddGroup(userGroup); err != nil {
+		return err
+	}
+
+	u, err := idm.AddUser(userName, userGroup)
+	if err != nil {
+		return err
+	}
+
+	if err = v.MkdirAll(root+"/w/locked", 0o755); err != nil {
+		return err
+	}
+
+	if err = v.Mkdir(root+"/p", 0o700); err != nil {
+		return err
+	}
+
+	for _, f := range [][2]string{{"/w/f", "WF"}, {"/w/locked/f", "LF"}, {"/p/f", "PF"}} {
+		if err = v.WriteFile(root+f[0], []byte(f[1]), 0o644); err != nil {
+			return err
+		}
+	}
+
+	if err = v.WriteFile(root+"/s", []byte("SS"), 0o600); err != nil {
+		return err
+	}
+
+	for _, p := range []string{"/w", "/w/f"} {
+		if err = v.Chown(root+p, u.Uid(), u.Gid()); err != nil {
+			return err
+		}
+	}
+
+	return nil
+}
+
 // links of the world of this system (none over an OrefaFS, which has no
 // symbolic links).
 func (s *sys) worldLinks() [][2]string {
@@ -182,8 +239,14 @@ func (s *sys) Reset() error {
 	var err error
 
 	k, msg := fsx.Guard(func() {
-		s.base = newFS(s.fsName, []avfs.DirInfo{{Path: basePath + "/a", Perm: 0o755}})
-		s.ref = newFS(s.fsName, []avfs.DirInfo{{Path: "/a", Perm: 0o755}})
+		var idmB, idmR avfs.IdentityMgr
+
+		if s.user {
+			idmB, idmR = memidm.New(), memidm.New()
+		}
+
+		s.base = newFS(s.fsName, []avfs.DirInfo{{Path: basePath + "/a", Perm: 0o755}}, idmB)
+		s.ref = newFS(s.fsName, []avfs.DirInfo{{Path: "/a", Perm: 0o755}}, idmR)
 
 		if err = populate(s.base, basePath, s.worldLinks()); err != nil {
 			return
@@ -191,6 +254,16 @@ func (s *sys) Reset() error {
 
 		if err = populate(s.ref, "", s.worldLinks()); err != nil {
 			return
+		}
+
+		if s.user {
+			if err = populateUser(s.base, basePath); err != nil {
+				return
+			}
+
+			if err = populateUser(s.ref, ""); err != nil {
+				return
+			}
 		}
 
 		if err = s.base.WriteFile("/secret", []byte("S"), 0o600); err != nil {
@@ -239,7 +312,24 @@ func (s *sys) Reset() error {
 			}
 		}
 
-		s.wr, err = basepathfs.NewWithErr(s.base, s.spelling)
+		// from here on the calls are made by the user of this system
+		if s.user {
+			for _, v := range []hooked{s.base, s.ref} {
+				if err = v.SetUserByName(userName); err != nil {
+					return
+				}
+			}
+		}
+
+		var under avfs.VFS = s.base
+
+		s.refv = s.ref
+
+		if s.roBase {
+			under, s.refv = rofs.New(s.base), rofs.New(s.ref)
+		}
+
+		s.wr, err = basepathfs.NewWithErr(under, s.spelling)
 		if err != nil {
 			return
 		}
@@ -705,8 +795,9 @@ func (s *sys) Step(op int) bfs.StepResult {
 		return bfs.StepResult{Key: s.lastKey, Outcome: "not-applicable-at-this-level"}
 	}
 
-	if o.Links && s.fsName != "MemFS" {
-		// no symbolic links in this world: the names mean nothing
+	if o.Links && s.fsName != "MemFS" || o.User && !s.user {
+		// no symbolic links in this world, not the world of the variant user:
+		// the names mean nothing
 		return bfs.StepResult{Key: s.lastKey, Outcome: "no-links-in-this-world"}
 	}
 
@@ -791,15 +882,15 @@ func (s *sys) Step(op int) bfs.StepResult {
 		var viewSymlink bool
 
 		got, viewSymlink = runSub(s.wr, o, false)
-		want, _ = runSub(s.ref, o, !viewSymlink && len(got.Subs) > 0 && got.Subs[0].Kind == "ok")
-	case symlinkCalls[o.Call] && !s.wr.HasFeature(avfs.FeatSymlink) && s.ref.HasFeature(avfs.FeatSymlink):
+		want, _ = runSub(s.refv, o, !viewSymlink && len(got.Subs) > 0 && got.Subs[0].Kind == "ok")
+	case symlinkCalls[o.Call] && !s.wr.HasFeature(avfs.FeatSymlink) && s.refv.HasFeature(avfs.FeatSymlink):
 		// The wrapper does not advertise symbolic links: the reference is a
 		// file system without that feature.
 		got = run(s.wr, o)
 		want = noSymlinkResult(o)
 	default:
 		got = run(s.wr, o)
-		want = run(s.ref, o)
+		want = run(s.refv, o)
 	}
 
 	// returned path strings are normalised from the virtual cwd in which the
